@@ -101,6 +101,33 @@ impl Cubic {
     }
 }
 
+#[cfg(feature = "quinn_rs_quinn_verif")]
+impl State {
+    /// (window, ssthresh, cwnd_inc, recovery_start_time)
+    fn verif_ints(&self) -> (u64, u64, u64, Option<Instant>) {
+        (self.window, self.ssthresh, self.cwnd_inc, self.recovery_start_time)
+    }
+}
+
+#[cfg(feature = "quinn_rs_quinn_verif")]
+impl Cubic {
+    /// integer fields of the state and of the saved pre-congestion state, current_mtu
+    #[allow(clippy::type_complexity)]
+    pub(crate) fn verif_state(
+        &self,
+    ) -> (
+        (u64, u64, u64, Option<Instant>),
+        Option<(u64, u64, u64, Option<Instant>)>,
+        u64,
+    ) {
+        (
+            self.state.verif_ints(),
+            self.pre_congestion_state.as_ref().map(State::verif_ints),
+            self.current_mtu,
+        )
+    }
+}
+
 impl Controller for Cubic {
     fn on_ack(
         &mut self,
@@ -149,6 +176,12 @@ impl Controller for Cubic {
             let w_est = self.state.w_est(t, rtt.get(), self.current_mtu);
 
             let mut cubic_cwnd = self.state.window;
+            #[cfg(feature = "quinn_rs_quinn_verif")]
+            {
+                crate::connection::verif::tap("lt", (w_cubic < w_est) as u64);
+                crate::connection::verif::tap("west", w_est as u64);
+                crate::connection::verif::tap("wcubic", w_cubic as u64);
+            }
 
             if w_cubic < w_est {
                 // TCP friendly region.
@@ -157,6 +190,8 @@ impl Controller for Cubic {
                 // Concave region or convex region use same increment.
                 let cubic_inc =
                     (w_cubic - cubic_cwnd as f64) / cubic_cwnd as f64 * self.current_mtu as f64;
+                #[cfg(feature = "quinn_rs_quinn_verif")]
+                crate::connection::verif::tap("inc", cubic_inc as u64);
 
                 // w_cubic grows cubically with the time since the last congestion
                 // event and can exceed `u64::MAX` after a long lossless period.
@@ -206,6 +241,11 @@ impl Controller for Cubic {
 
         self.state.recovery_start_time = Some(now);
         let window = self.state.window as f64;
+        #[cfg(feature = "quinn_rs_quinn_verif")]
+        {
+            crate::connection::verif::tap("red", (window * BETA_CUBIC) as u64);
+            crate::connection::verif::tap("cinc", (self.state.cwnd_inc as f64 * BETA_CUBIC) as u64);
+        }
 
         // Fast convergence lowers W_max first; the 0.7 loss reduction still
         // applies to the old window, not to that already-reduced W_max.
@@ -226,6 +266,8 @@ impl Controller for Cubic {
         if is_persistent_congestion {
             self.state.recovery_start_time = None;
             self.state.w_max = self.state.window as f64;
+            #[cfg(feature = "quinn_rs_quinn_verif")]
+            crate::connection::verif::tap("red2", (self.state.window as f64 * BETA_CUBIC) as u64);
 
             // 4.7 Timeout - reduce ssthresh based on BETA_CUBIC
             self.state.ssthresh = cmp::max(
